@@ -441,9 +441,8 @@ bool Session::sequence_check(const unsigned seqnum, const Message *msg)
 		}
 		else if (_state == States::st_logon_received)
 		{
-			// If SessionConfig has *not* been set, assume wrong logon sequence is checked.
-			if (!_sf || !_sf->get_ignore_logon_sequence_check_flag(_sf->_ses))
-				throw InvalidMsgSequence(seqnum, _next_receive_seq);
+			// a Logon may legitimately carry a number above the expected one (messages were sent while we
+			// were disconnected): handle_logon() completes the logon and then asks for the missing range
 		}
 		else	// any other established state (continuous, test request pending, ...): ask for the gap
 		{
@@ -504,6 +503,11 @@ bool Session::handle_logon(const unsigned seqnum, const Message *msg)
 
 		enforce(seqnum, msg);
 		do_state_change(States::st_continuous);
+		if (seqnum > _next_receive_seq) // messages were lost while disconnected: ask for them
+		{
+			send(generate_resend_request(_next_receive_seq));
+			do_state_change(States::st_resend_request_sent);
+		}
 	}
 	else // acceptor
 	{
@@ -607,6 +611,11 @@ bool Session::handle_logon(const unsigned seqnum, const Message *msg)
 			_connection->set_hb_interval(hbi());
 			send(generate_logon(hbi(), davi()));
 			do_state_change(States::st_continuous);
+			if (seqnum > _next_receive_seq) // messages were lost while disconnected: ask for them
+			{
+				send(generate_resend_request(_next_receive_seq));
+				do_state_change(States::st_resend_request_sent);
+			}
 			slout_info << "Client setting heartbeat interval to " << hbi();
 		}
 		else
